@@ -96,7 +96,14 @@ fn parse_lstr(iter: &mut TSIterator) -> Result<Option<Pattern>, Error> {
             }
         }
         Some(TokenTree::Group(group)) if group.delimiter() == Delimiter::None => {
-            parse_lstr(&mut group.stream().into_iter())
+            let iter = &mut group.stream().into_iter();
+            let ret = parse_lstr(iter)?;
+
+            if let Some(x) = iter.next() {
+                return Err(Error::new(x.span(), &format!("{}\nFound: {}", IN_MSG, x)));
+            }
+
+            Ok(ret)
         }
         Some(TokenTree::Literal(lit)) => parse_literal(lit).map(Some),
         Some(x) => Err(Error::new(x.span(), &format!("{}\nFound: {}", IN_MSG, x))),
